@@ -2,12 +2,15 @@ import MoneroModel.Drv.Util
 import MoneroModel.Model.HashScalar
 import MoneroModel.Spec.HashScalar
 import MoneroModel.Ref.Keccak
+import MoneroModel.Model.TxHash
 open Monero
 namespace Drv
 /-- C17 operations.
 `c17_keccak <hex msg>` → digest hex (no model side: the library wrapper has no logic; spec = reference Keccak-256);
 `c17_hs <hex 32-byte digest>` → 32-byte little-endian scalar hex (model `HashScalar.hsBytes`, spec `Spec.HashScalar`);
-`c17_hash_to_scalar <hex msg>` → scalar hex (model: `hashToScalar keccak256`; spec: reference Keccak then the spec reduction). -/
+`c17_hash_to_scalar <hex msg>` → scalar hex (model: `hashToScalar keccak256`; spec: reference Keccak then the spec reduction);
+`c17_trait_hs <hex key>` / `c17_trait_hs_tx <hex tx>` → `Hashable::hash_to_scalar` (model `HashScalar.hashableToScalarBytes`);
+`c17_hs_ctor <ctor> <hex digest>` → as `c17_hs` (the constructor of the `Hash` is irrelevant). -/
 def stepC17 : Step
   | ["c17_keccak", h] => some ("-", Hex.encode (Keccak.keccak256 (Hex.decode h)))
   | ["c17_hs", h] =>
@@ -18,7 +21,32 @@ def stepC17 : Step
     -- `Hashable::hash_to_scalar` (provided method) on a PublicKey: hash = Keccak(key bytes); scalar = LE(hash) mod l
     let k := Hex.decode h
     let d := Keccak.keccak256 k
-    some (s!"{Hex.encode d} {Hex.encode (HashScalar.hsBytes d)}", s!"{Hex.encode d} {Hex.encode (Spec.HashScalar.scalarOfDigest d)}")
+    some (s!"{Hex.encode (HashScalar.hashNew k)} {Hex.encode (HashScalar.hashableToScalarBytes HashScalar.hashNew k)}", s!"{Hex.encode d} {Hex.encode (Spec.HashScalar.scalarOfDigest d)}")
+  | ["c17_trait_hs_tx", h] =>
+    -- the provided method on `Transaction`, `TransactionPrefix`, `RctSigBase`: model = `hashableToScalarBytes` over the modelled
+    -- `hash()` of each type (Model/TxHash, whose agreement with the library is C05's subject); spec = the independent reduction
+    -- applied to the same digests
+    match Monero.tx (Hex.decode h) with
+    | some (t, []) =>
+      let K := Keccak.keccak256
+      let line (f : Bytes → Bytes) : String :=
+        let dt := txHash K t; let dp := prefixHash K t.pre
+        let sb := match t.base with
+          | some b => let db := K (encBase b); s!"{Hex.encode db} {Hex.encode (f db)}"
+          | none => "- -"
+        s!"ok {Hex.encode dt} {Hex.encode (f dt)} {Hex.encode dp} {Hex.encode (f dp)} {sb}"
+      let m :=
+        let sb := match t.base with
+          | some b => s!"{Hex.encode (K (encBase b))} {Hex.encode (HashScalar.hashableToScalarBytes (fun b => K (encBase b)) b)}"
+          | none => "- -"
+        s!"ok {Hex.encode (txHash K t)} {Hex.encode (HashScalar.hashableToScalarBytes (txHash K) t)} {Hex.encode (prefixHash K t.pre)} {Hex.encode (HashScalar.hashableToScalarBytes (prefixHash K) t.pre)} {sb}"
+      some (m, line Spec.HashScalar.scalarOfDigest)
+    | _ => some ("err", "err")
+  | ["c17_hs_ctor", _, h] =>
+    -- `as_scalar` does not depend on how the `Hash` value was constructed
+    let d := Hex.decode h
+    if d.length != 32 then some ("err", "err") else
+    some (Hex.encode (HashScalar.hsBytes d), Hex.encode (Spec.HashScalar.scalarOfDigest d))
   | ["c17_hash_to_scalar", h] =>
     let m := Hex.decode h
     some (Hex.encode (HashScalar.hashToScalarBytes HashScalar.hashNew m),
